@@ -178,9 +178,11 @@ PLAN.update({
         'inv': ['C15_ListenerAlive', 'C15_EchoAndJunkChangeNothing',
                 'C07_CallbackOnOrigin'],
         'quick': ['ps_listener_junk_quick', 'ps_listener_cb_quick',
-                  'ps_listener_fault_quick', 'ps_listener_enc_quick'],
+                  'ps_listener_fault_quick', 'ps_listener_enc_quick',
+                  'ps_listener_cbcancel_quick'],
         'thorough': ['ps_listener_junk_quick', 'ps_listener_cb_quick',
-                     'ps_listener_fault_quick', 'ps_listener_enc_quick'],
+                     'ps_listener_fault_quick', 'ps_listener_enc_quick',
+                  'ps_listener_cbcancel_quick'],
     },
     'C18g': {
         'fam': 'admin',
@@ -262,7 +264,8 @@ def _pubsub_consts(cfg):
               'WriteOnly': bool(cfg.get('write_only')),
               'MaxChan': cfg['max_chan'],
               'Immediate': bool(cfg.get('immediate')),
-              'NsAll': set(cfg['ns_all'])})
+              'NsAll': set(cfg['ns_all']),
+              'CbCancel': bool(cfg.get('cb_cancel'))})
     return c
 
 
@@ -484,10 +487,11 @@ def check_config(v, name, invariants, dev, variants=None):
     """One configuration, both implementations.  Returns True when clean."""
     planid = getattr(v, 'planid', v.pid)
     fam = _fam(planid)
-    variants = variants or fam.get('variants', ('threaded', 'asyncio'))
     base_inv = fam.get('base_inv', BASE_INV)
     fam_name = PLAN[planid].get('fam', 'server')
     cfg = _cfg_for(fam, name, dev)
+    variants = variants or cfg.get('variants') or fam.get(
+        'variants', ('threaded', 'asyncio'))
     wd = os.path.join(common.WORK, v.pid, name)
     os.makedirs(wd, exist_ok=True)
     alphabet = getattr(fam['alpha'], cfg['alpha'])(cfg)
